@@ -121,4 +121,10 @@ def siteInLambda (lv : Level) : Bool :=
   | some f => f.fn == "<lambda>"
   | none => false
 
+/-- Some frame of a recorded traceback runs generated code of a conversion that has no `converted_call`
+level on the path (a `to_graph` output called directly): nobody consults that conversion's source map.
+Class predicate of known finding `C12-to-graph-callee`. -/
+def unwrappedGenerated (allGen : List String) (ls : List (String × Level)) : Bool :=
+  ls.any fun (_, lv) => lv.tb.any fun f => allGen.contains f.file && !(ls.any fun (g, _) => g == f.file)
+
 end Malt.Errors
